@@ -27,7 +27,7 @@ SHARDS = 4
 CASE_TIMEOUT = 20
 RULE = (
     "programs = forests <= N nodes x <= k deviations over {message api incl. typed with raising "
-    "serializer, 6+16 field sets (16 hostile: raising __str__/__repr__, non-str dict keys, ints beyond "
+    "serializer, 6+20 field sets (20 hostile: lock / generator / uncopyable object / 600-deep list, raising __str__/__repr__, non-str dict keys, ints beyond "
     "64 bits, NaN/inf, invalid UTF-8 bytes, lone surrogate, object(), 400-deep list, self-referential "
     "list), action style, typed incl. raising serializers, exits incl. exception with raising "
     "extractor / raising __str__, extra finishes}; sinks = (faulty, file, list), (file, faulty), "
@@ -42,10 +42,10 @@ ASSUMPTIONS = [
 NFS = progs.N_ALL_FS
 SCHEMA = {
     "m": [("api", 8), ("fs", NFS)],
-    "a": [("style", 6), ("typed", 3), ("exit", 8), ("sf", NFS), ("ef", NFS), ("xf", 2)],
+    "a": [("style", 6), ("typed", 3), ("exit", 9), ("sf", NFS), ("ef", NFS), ("xf", 2)],
 }
 # ok, ValueError, StrRaises, Custom, BadExtract, BadExtract propagating, KeyboardInterrupt, ValueError one level up
-EXIT_MAP = [0, 1, 6, 3, 16, 17, 4, 11]
+EXIT_MAP = [0, 1, 6, 3, 16, 17, 4, 11, 18]  # 18: exception whose extractor fails into another failing extractor
 
 
 def BOUNDS(tier):
@@ -156,7 +156,9 @@ def run_case(case):
             a, it = execute(prog, sink, devs)
             return len(a.points), it
 
-        for dev, npoints, it in flt.explore(run, case["raises"], case.get("kinds", 4)):
+        # sink 1 (file first, faulty second) is explored one raise shallower: the faulty
+        # destination's position only matters for what the file already received
+        for dev, npoints, it in flt.explore(run, case["raises"] - (1 if sink == 1 else 0), case.get("kinds", 4)):
             execs += 1
             faults += len(dev)
             outcomes.add(npoints)
